@@ -138,6 +138,7 @@ def oracle(case, obs) -> List[str]:
         if st != exp:
             out.append(f"rank {r}: get_stack_of_node({i}, skip_ancestors={skip}) gives {st if isinstance(st, str) else st[:12]}, the tree gives {exp[:12]}")
     for r, rows in obs["rows"].items():
+        rows = C.relink(rows)      # links by correlation id, not the implementation's column
         by = {x[0]: x for x in rows}
         got = {x[0]: x for x in c[r]}
         kids: Dict[int, List[int]] = {}
@@ -150,7 +151,7 @@ def oracle(case, obs) -> List[str]:
             if x[5] > 0 and x[7] > 0 and by.get(x[7], [0] * 6)[5] == -1:
                 if g[1] != x[7]:
                     out.append(f"rank {r}: device activity {i} linked to host call {x[7]} has parent {g[1]}")
-            if i in in_graph and g[1] < 0 and g[2] != 0:
+            if x[5] == -1 and g[1] < 0 and g[2] != 0:
                 out.append(f"rank {r}: top-level event {i} (no parent) has depth {g[2]}")
             if i in in_graph and g[1] >= 0:
                 if g[1] == i:
